@@ -28,6 +28,7 @@ type Ctx struct {
 	Arg   string // optional suite argument (e.g. replay file)
 
 	OpTimeout time.Duration
+	Child     bool // running as a resource-limited child for one op
 
 	suite    *Suite
 	caseN    int
@@ -227,6 +228,7 @@ func main() {
 	out := flag.String("out", "", "output directory")
 	arg := flag.String("arg", "", "suite argument")
 	replay := flag.String("replay", "", "replay the cases of this ops file instead of generating")
+	child := flag.Bool("child", false, "child mode: read op lines from stdin, print observations")
 	flag.Parse()
 	if flag.NArg() != 1 || *out == "" {
 		names := make([]string, 0, len(suites))
@@ -242,6 +244,16 @@ func main() {
 	if !ok {
 		fmt.Fprintf(os.Stderr, "unknown suite %q\n", name)
 		os.Exit(2)
+	}
+	if *child {
+		c := &Ctx{Seed: *seed, Tier: *tier, Rng: NewRand(*seed), Stats: &Stats{Counters: map[string]int{}}, suite: su, Child: true, OpTimeout: 20 * time.Second}
+		r := su.New(c)
+		sc := bufio.NewScanner(os.Stdin)
+		sc.Buffer(make([]byte, 1<<20), 1<<30)
+		for sc.Scan() {
+			fmt.Println(oneLine(safeDo(r, sc.Text(), c.OpTimeout)))
+		}
+		return
 	}
 	if err := os.MkdirAll(*out, 0o755); err != nil {
 		fmt.Fprintln(os.Stderr, err)
